@@ -53,6 +53,9 @@ fn check_case(cfg: &Cfg, rep: &mut Report, tag: &str, nv: usize, no: usize, data
         let mut bad: Vec<String> = vec![];
         for (lname, owner, viewf) in layouts_2d(&base) {
             let v = viewf(&owner);
+            let n_before = bad.len();
+            let canon_failed = !bad.is_empty();
+            'body: {
             for ddof in [0.0f64, 1.0, 0.5] {
                 if ddof >= no as f64 { continue; }
                 let c = match v.cov(ddof) { Ok(c) => c, Err(e) => { bad.push(format!("cov returned an error | {:?} ddof={} [{}]", e, ddof, lname)); continue; } };
@@ -73,8 +76,8 @@ fn check_case(cfg: &Cfg, rep: &mut Report, tag: &str, nv: usize, no: usize, data
             }
             // Pearson correlation (needs non-constant variables)
             if (0..nv).all(|i| s[i][i].is_pos()) {
-                let p = match v.pearson_correlation() { Ok(p) => p, Err(e) => { bad.push(format!("pearson_correlation returned an error | {:?} [{}]", e, lname)); continue; } };
-                if p.dim() != (nv, nv) { bad.push(format!("pearson_correlation has the wrong shape | {:?} [{}]", p.dim(), lname)); continue; }
+                let p = match v.pearson_correlation() { Ok(p) => p, Err(e) => { bad.push(format!("pearson_correlation returned an error | {:?} [{}]", e, lname)); break 'body; } };
+                if p.dim() != (nv, nv) { bad.push(format!("pearson_correlation has the wrong shape | {:?} [{}]", p.dim(), lname)); break 'body; }
                 for i in 0..nv { for j in 0..nv {
                     let (sii, sjj, sij, aij) = (s[i][i].to_f64(), s[j][j].to_f64(), s[i][j].to_f64(), sa[i][j].to_f64());
                     let want = sij / (sii * sjj).sqrt();
@@ -106,10 +109,12 @@ fn check_case(cfg: &Cfg, rep: &mut Report, tag: &str, nv: usize, no: usize, data
                     } else { bad.push("pearson_correlation of transformed data returned an error | ".into()); }
                 }
             }
+            }
+            if lname != "c" && !canon_failed { for b in bad[n_before..].iter_mut() { *b = format!("LAYOUT {}", b); } }
         }
         bad
     });
-    match r { Err(m) => rep.fail_p(cfg, &case, "C08", "covariance / correlation panicked", json!({"panic": m})), Ok(bad) => if !bad.is_empty() { rep.fail_p(cfg, &case, "C08", bad[0].split(" | ").next().unwrap_or(""), json!({"problems": bad})); } }
+    match r { Err(m) => rep.fail_p(cfg, &case, "C08", "covariance / correlation panicked", json!({"panic": m})), Ok(bad) => if !bad.is_empty() { let lay = bad.iter().find(|b| b.starts_with("LAYOUT ")).cloned(); let other = bad.iter().find(|b| !b.starts_with("LAYOUT ")).cloned(); if let Some(l) = lay { rep.fail_p(cfg, &case, "C08,C20", l.split(" | ").next().unwrap_or(""), json!({"problems": bad})); } if let Some(o) = other { rep.fail_p(cfg, &case, "C08", o.split(" | ").next().unwrap_or(""), json!({"problems": bad})); } } }
     rep.eval(&case, nv >= 2 && no >= 2);
 }
 
